@@ -430,7 +430,7 @@ func writeEvidence(verif, prop, tier string, seed int, P *Program, results []*Fu
 	tb := []string{
 		"gvc translator (/verif/gvc): go/ssa NaiveForm semantics as implemented, loop cutting, contract application, SMT printing",
 		"golang.org/x/tools v0.29.0 go/packages + go/ssa; go/types",
-		"SMT solvers z3 4.8.12, z3 5.1.0 (z3-new), cvc5 1.0 (first definite answer wins)",
+		"SMT solvers z3 5.1.0 (z3-new) and cvc5 1.0, first definite answer wins (z3 4.8.12 excluded after a non-reproducible unsat, see DESIGN.md)",
 		"spec functions in zz_verif_contracts.go files are the oracle (written from the property statement / Redis source conventions)",
 	}
 	for t := range trusted {
@@ -449,7 +449,7 @@ func writeEvidence(verif, prop, tier string, seed int, P *Program, results []*Fu
 	cov := map[string]interface{}{
 		"obligations":   total,
 		"discharged":    okN,
-		"checker_cmd":   fmt.Sprintf("/verif/bin/gvc check -prop %s -tier %s (per obligation: z3-new | z3 | cvc5 raced, timeout %s)", prop, tier, map[string]string{"quick": "10s+40s escalation", "thorough": "40s+160s escalation"}[tier]),
+		"checker_cmd":   fmt.Sprintf("/verif/bin/gvc check -prop %s -tier %s (per obligation: z3-new (5.1.0) | cvc5 raced, timeout %s)", prop, tier, map[string]string{"quick": "10s+40s escalation", "thorough": "40s+160s escalation"}[tier]),
 		"trusted_base":  tb,
 		"functions":     funcs,
 		"samples":       samples,
